@@ -95,6 +95,7 @@ def run_case(case):
                 for act in case.get('cb_actions', ()):
                     if act[0] == name and fired.get(name, 0) == (act[2] if len(act) > 2 else 0):
                         fired[name] = fired.get(name, 0) + 1
+                        log.append(['act', act[1], S.name()])
                         try:
                             if act[1] == 'close':
                                 cf.close_link()
@@ -103,6 +104,7 @@ def run_case(case):
                                 cf.open_link('fake://0')
                         except Exception as ex:      # noqa
                             log.append(['ev', 'cb_action_raised:' + type(ex).__name__, S.name()])
+                        log.append(['act_end', act[1], S.name()])
                         break
                 else:
                     if any(act[0] == name for act in case.get('cb_actions', ())):
@@ -171,6 +173,30 @@ def run_case(case):
                                 and len(dev.FakeLink.instances) == n0 + 1:
                             cf.close_link()
                     threading.Thread(target=closer).start()
+                elif name == 'request':
+                    # the application sends a request the device never answers, with an expected reply (retry timer)
+                    from cflib.crtp.crtpstack import CRTPPacket
+                    pk = CRTPPacket()
+                    pk.set_header(14, 1)
+                    pk.data = bytes([op[1] if len(op) > 1 else 7])
+                    cf.send_packet(pk, expected_reply=(pk.data[0],), timeout=op[2] if len(op) > 2 else 0.2)
+                elif name == 'bg_slow_send':
+                    # a second user thread sends a packet on the slow port after op[1] seconds (it holds the send
+                    # lock while the driver's send_packet blocks)
+                    import threading
+                    from cflib.crtp.crtpstack import CRTPPacket
+
+                    def slow(dt=op[1]):
+                        detsched.d_sleep(dt)
+                        pk = CRTPPacket()
+                        pk.set_header(cfgkw['slow_send'][0], 0)
+                        pk.data = b'\x01'
+                        log.append(['ev', 'slow_send', S.name()])
+                        try:
+                            cf.send_packet(pk)
+                        except Exception as e:      # noqa
+                            log.append(['ev', 'slow_send_raised:' + type(e).__name__, S.name()])
+                    threading.Thread(target=slow).start()
                 elif name == 'wait_line':
                     # wait until some other thread is about to execute a source line of function op[1] (in
                     # cflib/crazyflie/__init__.py) that contains the text op[2], after at least op[3] packets
